@@ -57,6 +57,7 @@ func checkC11(c *Ctx) {
 	c.Explanation = `R11.1 variable bindings: the paths of Config.ParseTemplates up to the TemplateData literal are enumerated; on every path each documented variable must originate from its documented source - InterfaceName/InterfaceFile from the interface's Name/FileName, InterfaceDir from the parent directory of FileName, Mock = "Mock"/"mock" selected by go/ast.IsExported(interface name) (empty without an interface), SrcPackageName/SrcPackagePath from the source package's types Name()/Path(), StructName/Template from the config's own values, ConfigDir from filepath.Dir of the config-file parameter, InterfaceDirRelative from InterfaceDir made relative (fallback "."); NewRootConfig records the path of the config file actually loaded in that parameter before the levels are initialised;
 R11.2 exactly dir, filename, pkgname, structname and template-schema are rendered, each label paired with the Config field carrying that koanf tag;
 R11.3 termination and fixpoint: the rendering loop continues while a value changed, resets the flag at the top of each pass, sets it only under 'new value != value before rendering', and its pass counter is compared with a constant cap whose arm returns ErrInfiniteLoop from inside the loop; parse/execute errors are returned; there is no exit that keeps a half-rendered value silently;
+R11.5 every interface renders its own copy of the templated parameters: GetInterfaceConfig hands out a deep copy of the package config and the configs entries are deep copies (the C08 rule R08.3), because ParseTemplates rewrites the strings in place;
 R11.4 config templates and mock templates are both created with Funcs(template_funcs.FuncMap), and every FuncMap entry is the documented function (wrapper <-> strings namesake with the subject last; direct entries per the documented table).`
 	c.NotDecided = "what text/template renders for a given expression; working-directory effects; path normalisation."
 	c.Assumptions = []string{"text/template semantics", "go/ast.IsExported implements Go's exportedness rule"}
@@ -64,6 +65,7 @@ R11.4 config templates and mock templates are both created with Funcs(template_f
 	c.Rule("R11.2", 5, "")
 	c.Rule("R11.3", 5, "")
 	c.Rule("R11.4", 2, "")
+	c.Rule("R11.5", 1, "")
 	r := loadRepo(c, packages.LoadSyntax, "", "./config", "./template")
 	cp := r.Pkg("config")
 	info := cp.TypesInfo
@@ -236,6 +238,8 @@ R11.4 config templates and mock templates are both created with Funcs(template_f
 	}
 	// ---- R11.3
 	ruleFixpoint(c, r, cp, fd)
+	// ---- R11.5: ParseTemplates rewrites the templated strings in place, so each interface must own its Config
+	subRules(c, "R11.5", "own-config", "templated parameters are rendered in place, so a Config shared between interfaces is rendered once and reused: ", func(sub *Ctx) { ruleNoSharing(sub, r, cp) })
 	// ---- R11.4
 	for _, site := range []struct{ pkg, fn string }{{"config", "Config.ParseTemplates"}, {"template", "New"}} {
 		p := r.Pkg(site.pkg)
